@@ -137,6 +137,9 @@ type Hist struct {
 	AckBehind   int
 	AckBehindOK int
 
+	// ExtraSporkKey: a second key that may create / activate sporks in this world (the community spork address)
+	ExtraSporkKey types.Address
+
 	revokesAt []uint64
 	Unwraps   []UnwrapRecord
 	Htlcs     []HtlcSecret
@@ -412,7 +415,7 @@ func (h *Hist) ActCallABI() {
 	h.RefreshPools()
 	data, descr := GenCallData(c, h.Pools, addr, method, layer)
 	from := h.user("call.from")
-	if addr == types.SporkContract && method == definition.SporkActivateMethodName && from == h.W.Keys.Spork.Address {
+	if addr == types.SporkContract && method == definition.SporkActivateMethodName && (from == h.W.Keys.Spork.Address || from == h.ExtraSporkKey) {
 		// an activated spork that this process does not implement makes the node call os.Exit at
 		// its enforcement height; activations by the designated key are generated in C17 only,
 		// where the id is bound to an implemented spork first
